@@ -148,7 +148,7 @@ func C15(rep *ev.Reporter, tier string) {
 			rep.Violation("harness:build-failed:"+p.id, err.Error(), map[string]interface{}{"case": p.id})
 			return
 		}
-		nperm := len(hx.Perms(len(p.rules)))
+		nperm := hx.NPerms(len(p.rules))
 		for _, flag := range []bool{false, true} {
 			for order := 0; order < nperm; order++ {
 				// fault-free run: count polls and events
